@@ -23,6 +23,11 @@ use std::collections::HashMap;
 use std::fs::File;
 use std::io::{BufRead, BufReader, BufWriter, Write};
 
+/// bytes handed out by the C API; a null pointer (what a failing call returns) reads as empty
+pub fn ffi_bytes<'a>(p: *const u8, len: usize) -> &'a [u8] {
+    if p.is_null() || len == 0 { &[] } else { unsafe { std::slice::from_raw_parts(p, len) } }
+}
+
 #[global_allocator]
 static ALLOC: panics::PerturbAlloc = panics::PerturbAlloc;
 
@@ -878,7 +883,8 @@ fn gen_hist(a: &HashMap<String, String>) {
                 let v = if r.random_range(0..2) == 0 { spoil(&mut r, &v) } else { v };
                 json!({"op": "mkval", "c": c, "v": v})
             };
-            let res = w.apply(&op);
+            let res = std::panic::catch_unwind(std::panic::AssertUnwindSafe(|| w.apply(&op)))
+                .unwrap_or_else(|_| json!({"out": "panic", "v": Val::nil()}));
             *stats.entry(format!("{}.{}", op["op"].as_str().unwrap(), res["out"].as_str().unwrap())).or_default() += 1;
             let touched = match op["op"].as_str().unwrap() {
                 "clone" | "take" | "new" | "roundtrip" => w.ctxs.len(),
